@@ -37,6 +37,11 @@ def run(ctx):
         if not r.violation:
             raise vcheck.Infra("the as-coded model %s is expected to be refuted (attack schedules come from it)" % cfg)
     ctx.tlc("Tracker.tla", "Tracker_mc_quick.cfg", workers=12, timeout=1500)
+    # the alerts part without TLC's bounds (any number of readers' and writers' steps): inductive invariant by Apalache
+    ctx.apalache("AlertsInd.tla", "CInitFixed", "Init", "IndInv", 0)
+    ctx.apalache("AlertsInd.tla", "CInitFixed", "IndInit", "IndInv", 1)
+    ctx.apalache("AlertsInd.tla", "CInitFixed", "IndInit", "Safe", 0)
+    ctx.apalache("AlertsInd.tla", "CInitAsCoded", "IndInit", "IndInv", 1, expect_error=True)
     # R + V
     trace = os.path.join(ctx.work, "c18_obs.ndjson")
     dr = ctx.go_test("c18_conc", run="TestDriver", env={"VERIF_TRACE": trace}, timeout=2400, race=True,
